@@ -418,3 +418,15 @@ for _d, _idx in ((3, None), (3, [1]), (3, [0, 2])):
         args=(lambda d, ix: (lambda it: (None, [make_tt(it, "t", False, d)] + ([VList([VInt(P.const(i)) for i in ix])] if ix is not None else []), {})))(_d, _idx),
         check=_chk_watch(list(range(_d)) if _idx is None else _idx, True))
 scn(name="unwatch:d3", func="grad.unwatch", props=("C15",), args=lambda it: (None, [make_tt(it, "t", False, 3)], {}), check=_chk_watch([0, 1, 2], False))
+
+
+# --------------------------------------------------------------------------- added after round 3 of the seeded campaign
+# x.sum(0): the bare integer 0 is a mode index like any other (a falsy value must not be mistaken for "no index")
+scn(name="sum:int-index-0", func=TT + "sum", props=("C07",),
+    args=lambda it: (make_tt(it, "x", False, 3), [VInt(P.const(0))], {}), check=closed_check(_sum_expected(False, 3, {0}), "sum(0)"))
+scn(name="sum:int-index-0.ttm", func=TT + "sum", props=("C07",),
+    args=lambda it: (make_tt(it, "x", True, 2), [VInt(P.const(0))], {}), check=closed_check(_sum_expected(True, 2, {0}), "sum(0) of a TT matrix"))
+# every mode fixed by an integer plus one new axis: the result keeps that axis (shape (1,)), it is not the bare entry
+_gi("tt3[None,a,b,c]", False, 3, VTuple((VNone(), UI("a"), UI("b"), UI("c"))), [("none",), ("int", "a"), ("int", "b"), ("int", "c")])
+_gi("tt3[a,b,c,None]", False, 3, VTuple((UI("a"), UI("b"), UI("c"), VNone())), [("int", "a"), ("int", "b"), ("int", "c"), ("none",)])
+_gi("tt2[a,None,b]", False, 2, VTuple((UI("a"), VNone(), UI("b"))), [("int", "a"), ("none",), ("int", "b")])
